@@ -189,7 +189,7 @@ SrcRead(m, e) ==
   /\ [m |-> m, e |-> e] \in SrcOutcomes(R.bcap - R.blen)
   /\ src' = SrcAfter([m |-> m, e |-> e])
   /\ LET x == AcqRead(R, cur.n, m, e)
-         emp == g.opEmptySeen \/ (m = 0 /\ e = "nil")
+         emp == g.opEmptySeen \/ (m = 0 /\ e = "nil" /\ R.bcap - R.blen > 0)
      IN IF x.done
         THEN Complete(x.r, cur.op, cur.n, x.a, emp)
         ELSE /\ R' = x.r /\ g' = [g EXCEPT !.opEmptySeen = emp]
